@@ -485,8 +485,16 @@ def _build_model(h, g):
 
     n = len(zone_ids)
     if g == 4:
-        layout = h.choice("layout", ["one-ac-bitmap", "one-ac-no-bitmap", "two-acs-bitmap", "two-acs-ranges"])
-        if layout == "one-ac-bitmap":
+        layout = h.choice("layout", ["one-ac-bitmap", "one-ac-empty-bitmap", "one-ac-no-bitmap", "two-acs-bitmap", "two-acs-one-empty-bitmap", "two-acs-ranges"])
+        if layout == "one-ac-empty-bitmap":
+            # new ability format, AC serving no group: the (present, empty) bitmap wins over the fallbacks
+            abl = [ability(0, groups=set_of(h, []), start_group=0, group_count=n)]
+            want = {0: []}
+        elif layout == "two-acs-one-empty-bitmap":
+            abl = [ability(0, groups=set_of(h, zone_ids), start_group=0, group_count=0),
+                   ability(1, groups=set_of(h, []), start_group=0, group_count=n)]
+            want = {0: zone_ids, 1: []}
+        elif layout == "one-ac-bitmap":
             abl = [ability(0, groups=set_of(h, zone_ids[:1]), start_group=9, group_count=7)]
             want = {0: zone_ids[:1]}
         elif layout == "one-ac-no-bitmap":
